@@ -23,8 +23,8 @@ ASSUMPTIONS = [
     "a fit that raises is counted and skipped here (C16 owns k selection failures)",
 ]
 BUDGET = {
-    "quick": {"cases": 2400, "seconds": 60, "shards": 8},
-    "thorough": {"cases": 40000, "seconds": 540, "shards": 16},
+    "quick": {"cases": 7200, "seconds": 90, "shards": 8},
+    "thorough": {"cases": 100000, "seconds": 900, "shards": 16},
 }
 REQUIRED_OBS = ["forest_checked:knn", "forest_checked:unsup", "arc_membership_checked", "plateau_arcs_seen", "depth>=2", "roots>=2", "propagate_checked",
                 "hook_snapshots"]
